@@ -136,6 +136,69 @@ def run(ctx):
         if fi < 2:
             ctx.sample({"frames": [len(f["atoms"]) for f in frames], "text_head": text[:300]})
 
+    # ------------------------------------------------------------------ view classes as xyz writers: Substructure of a Molecule /
+    # Structure (non-leading subsets, `.heavy`, the empty selection) and Conformer views of an ensemble — objects whose
+    # atoms and coordinates live in another object. The text must be the model writer's text for the canonical form of
+    # the object being written (its own atom list and the coordinates its public `coords` gives) and read back as it.
+    def check_xyz_writer(obj, what, replay):
+        ctx.count(f"xyz_writer:{what.split(':')[0]}")
+        try:
+            want = tl.canon_geom(en, obj)
+            want["comment"] = obj.name if hasattr(obj, "name") else f"{type(obj)}"
+        except Exception as e:  # noqa: BLE001
+            ctx.disagree("could not take the canonical form of the object to be written", what, repr(e), "ok")
+            return
+        ctx.case({"xyz-writer": what, "geom": want}, nontriv(want))
+        st, text = tl.limited(obj.dumps_xyz)
+        if st != "ok":
+            ctx.violation("C08:dumps-xyz-raises", f"{what}: dumps_xyz raised {type(text).__name__}: {text}", replay)
+            return
+        ask("xwrite " + tl.frame_request(want),
+            lambda resp, text=text, what=what, want=want: (resp == "ok " + tl.hx(text)) or ctx.disagree(
+                f"{what}: dumps_xyz text differs from the model writer applied to the object written", want, text,
+                tl.unhx(resp[3:]) if resp.startswith("ok ") else resp))
+        st, back = tl.limited(lambda: ml.Molecule.loads_all_xyz(text))
+        if st != "ok":
+            ctx.violation("C08:own-output-rejected", f"{what}: the written xyz text is not read back ({back!r})", replay)
+            return
+        oracle_frames(ctx, en, [want], [tl.canon_geom(en, g) for g in back], what, replay)
+
+    for i in range(40 if quick else 600):
+        ctx.check_deadline()
+        g = gen_geom_spec(rng, en, 8, False)
+        n = len(g["atoms"])
+        if n < 2:
+            continue
+        g["comment"] = "parent"
+        for cls in (ml.Molecule, ml.Structure):
+            parent = build_geom(en, g, cls)
+            ksub = rng.range(1, n - 1)
+            idx = rng.shuffle(list(range(n)))[:ksub]
+            if idx == list(range(ksub)):
+                idx = idx[::-1] if ksub > 1 else [n - 1]
+            rp = {"kind": "xyz-view-writer", "class": cls.__name__, "geom": g}
+            for what, make in ((f"Substructure of {cls.__name__}: atoms {idx}", lambda: parent.substructure(idx)),
+                               (f"Substructure of {cls.__name__}: heavy", lambda: parent.heavy),
+                               (f"Substructure of {cls.__name__}: empty selection", lambda: parent.substructure([]))):
+                try:
+                    view = make()
+                except Exception as e:  # noqa: BLE001
+                    ctx.disagree("could not build the view through the public API", what, repr(e), "ok")
+                    continue
+                check_xyz_writer(view, what, dict(rp, view=what))
+            check_xyz_writer(parent, f"parent after views: {cls.__name__}", rp)
+        # Conformer views (with non-uniform weights on the ensemble)
+        confs = []
+        for _ in range(rng.range(1, 4)):
+            sp = json.loads(json.dumps(g))
+            for a in sp["atoms"]:
+                a["x"], a["y"], a["z"] = tl.gen_coord(rng, False), tl.gen_coord(rng, False), tl.gen_coord(rng, False)
+            confs.append(build_geom(en, sp, ml.Molecule))
+        ens = ml.ConformerEnsemble(confs)
+        tl.set_weights(rng, ens)
+        for j in rng.shuffle(list(range(ens.n_conformers))):
+            check_xyz_writer(ens[j], f"Conformer: {j} of {ens.n_conformers}", {"kind": "xyz-conformer-writer", "geom": g, "conformer": j})
+
     # ------------------------------------------------------------------ ensembles: frame by frame
     for i in range(30 if quick else 1000):
         base = gen_geom_spec(rng, en, 8, False)
@@ -154,6 +217,7 @@ def run(ctx):
         replay = {"kind": "ensemble", "frames": confs}
         try:
             ens = ml.ConformerEnsemble([build_geom(en, s, ml.Molecule) for s in confs])
+            replay["weights"] = tl.set_weights(rng, ens)     # frame k of the text is conformer k of the object, whatever the weights
         except Exception as e:  # noqa: BLE001
             ctx.disagree("could not build the ensemble", base, repr(e), "ok")
             continue
